@@ -36,6 +36,12 @@ CHECKS.update({
  "C08": ("fault_enumeration", "E3 signed-structure enumeration", "exhaustive fault enumeration over a deviation catalogue applied to well-formed signed structures, real verifier compared with an independent transcription of the specification's algorithm",
    "8 well-formed base structures (flat, nested, arrays, object-in-array, disclosure-in-disclosure, nested arrays, everything) x every single deviation and every pair of deviations of the catalogue (_sd list shape, placeholder shape, _sd_alg top/nested, disclosure decoded form of length 0..5 with every type at the name slot, reserved/colliding names, wrong container kind, duplicates, unreferenced) x 2 formats, signed by the harness with the test key. Model Reject => Err required; model Claims/May => Ok must carry exactly the model's claims; Panic never.",
    "spec_verify is the harness's transcription of draft-07 8.1 step 3; jsonwebtoken correct", "4 C08"),
+ "C03": ("model_checking", "E3 intruder (disclosure lists)", "explicit-state enumeration of everything a bounded channel intruder can assemble as a disclosure list (genuine, second-credential, forged, garbage items), every list submitted to the real verifier and judged against the reference view",
+   "Per credential (S(3,2) quick / S(3,3) thorough x TopLevel, AllLevels, every Custom subset x decoys/JSON; depth chains): every subset of the genuine disclosures in every order (|G|<=4; issuance/reverse/rotations for 5..6), each with one duplicated item, each with one foreign item (second credential's disclosures, 10 forgeries per genuine disclosure, 9 forged claims naming iss/exp/cnf/_sd_alg/existing/new names, 7 garbage strings) at every position; thorough adds pairs of foreign items. Oracle: Err, or exactly view(U,H,closure(L∩G)); lists the real holder emits must be accepted.",
+   "SHA-256 preimage resistance; forgery catalogue is finite", "4 C03"),
+ "C04": ("model_checking", "E3 intruder (key binding) + E2 char sweep", "explicit-state enumeration of intruder compositions (credential x disclosure list x KB-JWT item x verifier expectation x format) judged by a three-valued model verdict, plus every single-character edit of honest KB-JWTs",
+   "Sessions A,B (same holder key), C (other holder key), N (no cnf); 11 disclosure lists per session (S, S', reordered, plus/minus one, duplicated, empty); 16 KB-JWT items made by the real holder + 40 forged (typ/nonce/aud/sd_hash absent/other/wrong type, re-signed by attacker/issuer/other-holder key, HS256 keyed with the public key, alg none, unsigned) + absent/empty/garbage; 7 verifier expectations; 2 formats; ES256 and EdDSA holder keys. MustReject => Err, MustAccept (holder-made honest) => Ok with the exact view, Either => Err or exact view. Plus 10x10 aud/nonce string alphabet and every single-character edit of 4 honest KB-JWTs.",
+   "the harness holds holder key h1 to build field-level forgeries; iat freshness not asserted", "4 C04"),
 })
 NOT_YET = {}
 def main():
